@@ -49,6 +49,35 @@ class MInt:
         self.v, self.w, self.s = v, w, s
 
 
+def const_value(C, name):
+    """integer value of a contract constant (constants are closed arithmetic expressions)"""
+    def ev(a):
+        k = a[0]
+        if k == "num":
+            return a[1]
+        if k == "id":
+            return ev(C.consts[a[1]])
+        if k == "un" and a[1] == "-":
+            return -ev(a[2])
+        if k == "bin":
+            x, y = ev(a[2]), ev(a[3])
+            op = a[1]
+            if op == "+":
+                return x + y
+            if op == "-":
+                return x - y
+            if op == "*":
+                return x * y
+            if op == "^":
+                return x ** y
+            if op == "/":
+                return x // y
+            if op == "%":
+                return x % y
+        raise VerifError("constant %s is not closed" % name)
+    return ev(C.consts[name])
+
+
 _IDENT_CACHE = {}
 
 
@@ -667,11 +696,11 @@ class Evaluator:
 
 # ================================================================== ring mode (tier F)
 
-RING_BUILTINS = {"lv", "inv", "tight", "canon", "small", "eqlimbs", "iszero", "isone", "rawzero", "fpow", "finv"}
+RING_BUILTINS = {"lv", "sval", "inv", "tight", "canon", "small", "eqlimbs", "iszero", "isone", "rawzero", "fpow", "finv"}
 
 
 def _ring_methods():
-    from .ring import RVal, RPoly, RInt, RCanon, req, P25519, to_rpoly
+    from .ring import RVal, RPoly, RInt, RCanon, req, P25519, MOD, to_rpoly
 
     def rv(self, ref):
         if not isinstance(ref, Ref):
@@ -697,15 +726,15 @@ def _ring_methods():
         if key in st.cache:
             return st.cache[key]
         if poly.is_const():
-            r = Poly.const(poly.const_val() % P25519)
+            r = Poly.const(poly.const_val() % MOD())
             st.cache[key] = r
             return r
         n = self.dom.new_name("cv")
         st.decl[n] = "Int"
-        st.bounds[n] = (0, P25519 - 1)
+        st.bounds[n] = (0, MOD() - 1)
         a = Poly.atom(n)
         st.hyps.append(("<=", Poly.const(0), a))
-        st.hyps.append(("<=", a, Poly.const(P25519 - 1)))
+        st.hyps.append(("<=", a, Poly.const(MOD() - 1)))
         for k2, other in list(st.cache.items()):
             if isinstance(k2, tuple) and k2 and k2[0] == "cv":
                 e = req(poly - k2[1])
@@ -713,7 +742,7 @@ def _ring_methods():
                 st.hyps.append(mk_iff(e, eqf))
                 if not (poly + k2[1]).t and isinstance(other, Poly):
                     # canonical representatives of x and -x:  both 0, or they add up to P
-                    st.hyps.append(mk_or(mk_and(("=", a, Poly.const(0)), ("=", other, Poly.const(0))), ("=", a + other, Poly.const(P25519))))
+                    st.hyps.append(mk_or(mk_and(("=", a, Poly.const(0)), ("=", other, Poly.const(0))), ("=", a + other, Poly.const(MOD()))))
         st.cache[key] = a
         return a
 
@@ -733,7 +762,7 @@ def _ring_methods():
         # one side is a plain integer expression n: n == canonical(value) (mod P)
         ring, other = (pa, xb) if pa is not None else (pb, xa)
         n = self.as_int(other)
-        return self.dom.s_cong(self.st, n, self.cv(ring), Poly.const(P25519))
+        return self.dom.s_cong(self.st, n, self.cv(ring), Poly.const(MOD()))
 
     def ring_binary(self, op, x, y):
         if op in ("+", "-", "*") and (isinstance(x, RCanon) or isinstance(y, RCanon)):
@@ -749,7 +778,7 @@ def _ring_methods():
                 raise VerifError("exponent must be a constant")
             return RInt(self.ring_of(x).pow(y))
         if op == "%":
-            if isinstance(x, RInt) and isinstance(y, int) and y == P25519:
+            if isinstance(x, RInt) and isinstance(y, int) and y == MOD():
                 return RCanon(x.poly)
             if isinstance(x, RCanon):
                 return self.dom.s_bin(self.st, "%", self.cv(x.poly), self.as_int(y))
@@ -811,7 +840,7 @@ def _ring_methods():
         return v.poly
 
     def ring_call(self, name, args, old):
-        if name == "lv":
+        if name in ("lv", "sval"):
             v, _ = self.rv(self.ev(args[0], old))
             return RInt(v.poly)
         if name in ("inv", "tight", "canon", "small"):
@@ -864,21 +893,24 @@ def _ring_methods():
             px = self.ring_of(x)
             if px is None:
                 raise VerifError("fpow of a non-field value")
-            e = P25519 - 2 if name == "finv" else self.conc(self.ev(args[1], old))
+            e = MOD() - 2 if name == "finv" else self.conc(self.ev(args[1], old))
             single = len(px.t) == 1 and list(px.t.items())[0][1] == 1 and len(list(px.t)[0]) == 1 and list(px.t)[0][0][1] == 1
-            kind0 = "finv" if e == P25519 - 2 else "p58" if e == (P25519 - 5) // 8 else None
+            kind0 = "finv" if e == MOD() - 2 else "p58" if (e == (P25519 - 5) // 8 and MOD() == P25519) else None
             if not self.assume and kind0 and ("fn", kind0, px) in self.st.cache:
                 return RInt(self.st.cache[("fn", kind0, px)])
             if not self.assume:
                 # proving a body against its exponent contract: the argument is an input atom
                 if single or px.is_const():
-                    return RInt(px.pow(e)) if single else RInt(RPoly.const(pow(px.const_val(), e, P25519)))
+                    return RInt(px.pow(e)) if single else RInt(RPoly.const(pow(px.const_val(), e, MOD())))
                 raise Unsupported("fpow of a compound value as a proof goal")
             if px.is_const():
-                return RInt(RPoly.const(pow(px.const_val(), e, P25519)))
-            if e == P25519 - 2:
+                return RInt(RPoly.const(pow(px.const_val(), e, MOD())))
+            mono1 = len(px.t) == 1 and list(px.t.values())[0] == 1
+            if kind0 is None and mono1:
+                return RInt(px.pow(e))   # a power of a monomial is exact algebra
+            if e == MOD() - 2:
                 return RInt(self.fn_atom("finv", px))
-            if e == (P25519 - 5) // 8:
+            if kind0 == "p58":
                 return RInt(self.fn_atom("p58", px))
             raise Unsupported("fpow with exponent %d of a compound value" % e)
         raise VerifError("ring builtin %s" % name)
